@@ -8,7 +8,9 @@ ROLES_PLAIN = [':ARG0', ':ARG1', ':ARG2', ':mod', ':domain', ':op1', ':op2', ':o
                # role of its own: usable only under the models that do not (R-base)
                ':consist', ':prep-on-behalf', ':x', ':u',
                # roles ending in -of that some tables define, literally or by a pattern
-               ':x-of', ':u-of', ':w-of', ':y-z-of', ':prep-out-of', ':w', ':op1-x-of', ':prep-on-top-of', ':r0-z', ':r']
+               ':x-of', ':u-of', ':w-of', ':y-z-of', ':prep-out-of', ':w', ':op1-x-of', ':prep-on-top-of', ':r0-z', ':r',
+               # suffixes that only look like the inversion suffix (another letter case): ordinary roles
+               ':ARG0-OF', ':x-Of', ':mod-oF']
 SYMS = ['-', '+', 'foo', 'bar', '7', '-1.5', '0', '0.0', '1e3', 'x', 'imperative', 'A',
         'b2', '\u03b5\u03c0', 'a.b', 'c,d', '^', "it's", '\u00a0', 'x\u2028y', '00', 'x\u3000y',
         '\u0085', 'p#q', 'mi\ufeffkh', 'z\u200bw', 'cafe\u0301', '\u212bngstr', '\u201cso\u201d', '\u201c1\u201d',
